@@ -106,6 +106,74 @@ Proof.
   eapply Rle_lt_trans; [apply Rabs_triang|]. rewrite Rabs_Ropp. lra.
 Qed.
 
+(** * heteroazeotrope (three-phase) Newton iteration of phase_diagram_binary.rs
+    [heteroazeotrope_t]: res = (mu_l1 - mu_v + RT ln(rho_l1/rho_v), mu_l2 - mu_v + RT ln(rho_l2/rho_v), p_l1 - p_v, p_l2 - p_v);
+    [heteroazeotrope_p]: the last entries are (p_l1 - p, p_l2 - p, p_v - p).  The state that is RETURNED is the state whose
+    residual norm passed the test (the test precedes the linear solve and the update). *)
+Definition hetero_res_T T mu1 mu2 muv rho1 rho2 rhov p1 p2 pv : list R :=
+  res_mu T mu1 muv rho1 rhov ++ res_mu T mu2 muv rho2 rhov ++ [p1 - pv; p2 - pv].
+Definition hetero_err_T T mu1 mu2 muv rho1 rho2 rhov p1 p2 pv : R :=
+  norm2 (hetero_res_T T mu1 mu2 muv rho1 rho2 rhov p1 p2 pv).
+Definition hetero_res_p T mu1 mu2 muv rho1 rho2 rhov p1 p2 pv p : list R :=
+  res_mu T mu1 muv rho1 rhov ++ res_mu T mu2 muv rho2 rhov ++ [p1 - p; p2 - p; pv - p].
+Definition hetero_err_p T mu1 mu2 muv rho1 rho2 rhov p1 p2 pv p : R :=
+  norm2 (hetero_res_p T mu1 mu2 muv rho1 rho2 rhov p1 p2 pv p).
+
+(** temperature specified: every component has the same fugacity in liquid 1 / vapor and liquid 2 / vapor within
+    tol/(RT), and both liquid pressures are the vapor pressure within tol *)
+Theorem hetero_res_bound_T T mu1 mu2 muv rho1 rho2 rhov p1 p2 pv tol : 0 < T ->
+  Forall (fun q => 0 < fst (snd q) /\ 0 < snd (snd q)) (comp_data mu1 muv rho1 rhov) ->
+  Forall (fun q => 0 < fst (snd q) /\ 0 < snd (snd q)) (comp_data mu2 muv rho2 rhov) ->
+  hetero_err_T T mu1 mu2 muv rho1 rho2 rhov p1 p2 pv < tol ->
+  isofugacity_within T (tol / T) (comp_data mu1 muv rho1 rhov) /\
+  isofugacity_within T (tol / T) (comp_data mu2 muv rho2 rhov) /\
+  Rabs (p1 - pv) < tol /\ Rabs (p2 - pv) < tol /\ Rabs (p1 - p2) < 2 * tol.
+Proof.
+  intros HT Hp1 Hp2 H. apply norm2_bound in H. unfold hetero_res_T in H.
+  apply Forall_app in H. destruct H as [Hm1 H]. apply Forall_app in H. destruct H as [Hm2 Hp].
+  inversion Hp as [|a l Ha Hl]; subst. inversion Hl as [|b l' Hb Hl']; subst.
+  split; [apply res_mu_bound; assumption|]. split; [apply res_mu_bound; assumption|].
+  repeat split; try assumption.
+  replace (p1 - p2) with ((p1 - pv) - (p2 - pv)) by ring.
+  eapply Rle_lt_trans; [apply Rabs_triang|]. rewrite Rabs_Ropp. lra.
+Qed.
+
+(** pressure specified: additionally all three pressures are the specified one within tol *)
+Theorem hetero_res_bound_p T mu1 mu2 muv rho1 rho2 rhov p1 p2 pv p tol : 0 < T ->
+  Forall (fun q => 0 < fst (snd q) /\ 0 < snd (snd q)) (comp_data mu1 muv rho1 rhov) ->
+  Forall (fun q => 0 < fst (snd q) /\ 0 < snd (snd q)) (comp_data mu2 muv rho2 rhov) ->
+  hetero_err_p T mu1 mu2 muv rho1 rho2 rhov p1 p2 pv p < tol ->
+  isofugacity_within T (tol / T) (comp_data mu1 muv rho1 rhov) /\
+  isofugacity_within T (tol / T) (comp_data mu2 muv rho2 rhov) /\
+  Rabs (p1 - p) < tol /\ Rabs (p2 - p) < tol /\ Rabs (pv - p) < tol.
+Proof.
+  intros HT Hp1 Hp2 H. apply norm2_bound in H. unfold hetero_res_p in H.
+  apply Forall_app in H. destruct H as [Hm1 H]. apply Forall_app in H. destruct H as [Hm2 Hp].
+  inversion Hp as [|a l Ha Hl]; subst. inversion Hl as [|b l' Hb Hl']; subst. inversion Hl' as [|c l'' Hc Hl'']; subst.
+  split; [apply res_mu_bound; assumption|]. split; [apply res_mu_bound; assumption|].
+  repeat split; assumption.
+Qed.
+
+(** the temperatures of the three phases in [heteroazeotrope_p]: the start states sit at three different
+    temperatures (two bubble temperatures and their mean); every Newton update rebuilds ALL phases at the one
+    temperature [t = v.temperature - dx[6]].  (liquid 1, liquid 2, vapor) *)
+Definition het_temps := (R * R * R)%type.
+Definition het_step_p (s : het_temps) (dt : R) : het_temps :=
+  let '(t1, t2, tv) := s in (tv - dt, tv - dt, tv - dt).
+Definition het_common (s : het_temps) : Prop := let '(t1, t2, tv) := s in t1 = tv /\ t2 = tv.
+
+Lemma het_step_common s dt : het_common (het_step_p s dt).
+Proof. destruct s as [[t1 t2] tv]. cbn. split; reflexivity. Qed.
+
+(** after at least one update — whatever the start temperatures and the steps — the three phases share one
+    temperature; so do the returned phases whenever the start states do *)
+Theorem hetero_p_common_temperature s dts : (dts <> [] \/ het_common s) -> het_common (fold_left het_step_p dts s).
+Proof.
+  revert s. induction dts as [|dt dts IH]; intros s H; cbn [fold_left].
+  - destruct H as [H|H]; [congruence|exact H].
+  - apply IH. right. apply het_step_common.
+Qed.
+
 (** * the acceptance test of the Tp flash (successive substitution) *)
 (** one entry per component: ((lnphi_l, lnphi_v), (x, y)) *)
 Definition flash_res_entry (q : (R * R) * (R * R)) : R :=
@@ -338,7 +406,7 @@ Qed.
 
 (** tactic closing the generated correspondence goals *)
 Ltac res_interval :=
-  unfold newton_err_T, newton_err_p, newton_res_T, newton_res_p, res_mu, flash_res_norm, flash_res, norm2, sumsq,
+  unfold hetero_err_T, hetero_err_p, hetero_res_T, hetero_res_p, newton_err_T, newton_err_p, newton_res_T, newton_res_p, res_mu, flash_res_norm, flash_res, norm2, sumsq,
          adjust_x2_err, adjust_x2_terms, adjust_x2_new, rsum, comp_data, res_mu_entry, flash_res_entry, kx_entry, dy_R;
   cbn [combine map app fold_right fst snd nth];
   interval with (i_prec 100).
